@@ -80,3 +80,11 @@ Proof. reflexivity. Qed.
 Lemma remove_service_sites_ok : remove_service_sites =
   ["server/api/service_gc_safepoint.go:Delete"; "server/grpc_service.go:UpdateServiceGCSafePoint"].
 Proof. reflexivity. Qed.
+
+Lemma skel_etcdkv_Save_ok : skel_etcdkv_Save =
+  [Call "NewSlowLogTxn"; Call "OpPut"; Call "Then"; Call "Commit"; IfE "v5 != nil" [Assign "v6" ":= errs.ErrEtcdKVPut.Wrap(v5).GenWithStackByCause()"; Ret] []; IfE "!v4.Succeeded" [Ret] []; Ret].
+Proof. reflexivity. Qed.
+
+Lemma skel_etcdkv_Remove_ok : skel_etcdkv_Remove =
+  [Call "NewSlowLogTxn"; Call "OpDelete"; Call "Then"; Call "Commit"; Assign "v4" ":= v2.Then(clientv3.OpDelete(v1)).Commit()"; IfE "v4 != nil" [Assign "v4" "= errs.ErrEtcdKVDelete.Wrap(v4).GenWithStackByCause()"; Ret] []; IfE "!v3.Succeeded" [Ret] []; Ret].
+Proof. reflexivity. Qed.
